@@ -734,7 +734,7 @@ func hangEvidence(out string) (bool, string) {
 }
 
 // after the load: does the relay still answer? if not, dump the goroutines that are parked on a mutex
-func hangProbe(r *lib.Relay, admin string) {
+func hangProbe(r *lib.Relay, admin string) bool {
 	ok := false
 	var sts [2]int
 	for try := 0; try < 2 && !ok; try++ {
@@ -747,9 +747,10 @@ func hangProbe(r *lib.Relay, admin string) {
 	}
 	if ok {
 		fmt.Fprintln(os.Stderr, "@@ALIVE")
-		return
+		return true
 	}
 	dumpParked(fmt.Sprintf("the relay no longer answers POST /session (status %d) or POST /bids/deny (status %d) within 5 s, twice", sts[0], sts[1]))
+	return false
 }
 
 // dumpParked prints @@HANG <what> and the goroutines of the store packages that are parked on a mutex
@@ -1211,6 +1212,10 @@ func childRelay(a []string) {
 	}
 	wg.Wait()
 	fmt.Fprintf(os.Stderr, "@@RELAY sessions=%d conns=%d msgs=%d admin=%d\n", sessions, conns, msgs, adm)
+	if mode == "mix" && !hangProbe(r, admin) {
+		r.Stop() // the relay is wedged: the remaining scenarios would only wait for their time-outs
+		return
+	}
 	if mode == "mix" {
 		if bad := ghostMembers(r, admin, stats, g.Fork()); bad != "" {
 			fmt.Fprintf(os.Stderr, "@@GHOST %s\n", bad)
